@@ -1,4 +1,5 @@
 from abc import abstractmethod, ABC
+from scipy import sparse
 from skglm.utils.validation import check_attrs
 
 
@@ -101,6 +102,10 @@ class BaseSolver(ABC):
         >>> ...
         >>> coefs, obj_out, stop_crit = solver.solve(X, y, datafit, penalty)
         """
+        if sparse.issparse(X) and X.format != "csc":
+            # solvers read X.data, X.indptr and X.indices as a CSC triple
+            X = X.tocsc()
+
         if run_checks:
             self._validate(X, y, datafit, penalty)
 
